@@ -622,3 +622,318 @@ Section Rows.
       + rewrite (I2 Hs). apply orb_true_r.
   Qed.
 End Rows.
+
+(* ================================================================ D. what the ledger guarantees *)
+Ltac bind_all H :=
+  repeat match type of H with
+         | bind ?m _ = Ok _ => destruct m eqn:?; cbn [bind] in H; [ | discriminate H | discriminate H]
+         | (if ?c then _ else _) = Ok _ => destruct c eqn:?; try discriminate H
+         | match ?x with _ => _ end = Ok _ => destruct x eqn:?; try discriminate H
+         end.
+
+Section LedgerInv.
+  Variable A : arith.
+  Variable P : delta -> Prop.
+  Hypothesis HP : forall bef t aft st d inj, delta_for_tx A bef t aft st = Ok (d, inj) -> P d.
+
+  Lemma run_injected_all inj : forall bef st aft ds bef' st' o,
+    run_injected A bef st inj aft = (ds, bef', st', o) -> Forall P ds.
+  Proof.
+    induction inj as [|t inj IH]; intros bef st aft ds bef' st' o H; cbn [run_injected] in H.
+    - inversion H; constructor.
+    - destruct (delta_for_tx A bef t (inj ++ aft) st) as [[d i]| |] eqn:Ed; try (inversion H; constructor).
+      destruct (set_latest A st (t_af t) (d_post d)) as [st1| |]; try (inversion H; constructor).
+      destruct (run_injected A (t :: bef) st1 inj aft) as [[[ds1 b1] s1] o1] eqn:Er.
+      inversion H; subst. constructor; [eapply HP; eauto | eapply IH; eauto].
+  Qed.
+
+  Lemma run_loop_all aft : forall bef st ds o,
+    run_loop A bef st aft = (ds, o) -> Forall P ds.
+  Proof.
+    induction aft as [|t aft IH]; intros bef st ds o H; cbn [run_loop] in H.
+    - inversion H; constructor.
+    - destruct (delta_for_tx A bef t aft st) as [[d inj]| |] eqn:Ed; try (inversion H; constructor).
+      destruct (set_latest A st (t_af t) (d_post d)) as [st1| |]; try (inversion H; constructor).
+      destruct (run_injected A (t :: bef) st1 inj aft) as [[[dsi b1] st2] o1] eqn:Er.
+      apply run_injected_all in Er.
+      destruct o1 as [s1|].
+      + inversion H; subst. constructor; [eapply HP; eauto | assumption].
+      + destruct (run_loop A b1 st2 aft) as [ds2 o2] eqn:El. inversion H; subst.
+        constructor; [eapply HP; eauto|]. apply Forall_app. split; [assumption | eapply IH; eauto].
+  Qed.
+
+  Lemma run_all init txs ds o : run A init txs = (ds, o) -> Forall P ds.
+  Proof.
+    unfold run. destruct txs as [|t txs]; intros H; [inversion H; constructor|].
+    destruct (init_state A init) as [st| |]; try (inversion H; constructor).
+    eapply run_loop_all; eauto.
+  Qed.
+
+  Lemma run_secs_all inits all secs : forall out,
+    run_secs A inits all secs = Ok out -> Forall (fun x => Forall P (fst (snd x))) out.
+  Proof.
+    induction secs as [|s secs IH]; intros out H; cbn [run_secs] in H.
+    - inversion H; constructor.
+    - bind_as H as rest Er. specialize (IH _ eq_refl).
+      destruct (replace_global_splits _ _) as [l| |]; inversion H; subst; constructor; cbn [fst snd]; auto.
+      destruct (run A (init_for inits s) l) as [ds o] eqn:E. cbn [fst]. eapply run_all; eauto.
+  Qed.
+End LedgerInv.
+
+Lemma delta_nonsell_no_sfl A t pre d : delta_nonsell A t pre = Ok d -> d_sfl d = None /\ d_tx d = t.
+Proof.
+  unfold delta_nonsell. intros H. destruct (t_act t); bind_all H; inversion H; split; reflexivity.
+Qed.
+
+(* a delta of the ledger carries a superficial-loss record only on a sale,
+   and then with a capital gain *)
+Lemma delta_for_tx_sfl A bef t aft st d inj :
+  delta_for_tx A bef t aft st = Ok (d, inj) ->
+  d_tx d = t /\ (d_sfl d <> None -> d_gain d <> None /\ is_sell (t_act t) = true).
+Proof.
+  unfold delta_for_tx. intros H. bind_as H as u Eu.
+  destruct (t_act t) eqn:Ea;
+    try (bind_as H as d0 Ed; inversion H; subst; apply delta_nonsell_no_sfl in Ed as [E1 E2];
+         split; [exact E2 | intros Hn; rewrite E1 in Hn; contradiction]).
+  bind_as H as c Ec. destruct (sc_gain c) as [g|].
+  - destruct (Qcltb g 0).
+    + bind_as H as m Em. destruct m as [[info inj']|].
+      * bind_as H as g' Eg. inversion H; subst. cbn. split; [reflexivity|]. intros _. split; [discriminate|reflexivity].
+      * inversion H; subst. cbn. split; [reflexivity|]. intros Hn; contradiction.
+    + destruct sfl; [discriminate|]. inversion H; subst. cbn. split; [reflexivity|]. intros Hn; contradiction.
+  - inversion H; subst. cbn. split; [reflexivity|]. intros Hn; contradiction.
+Qed.
+
+Lemma row_sfl_has_record d : row_sfl d = true -> d_sfl d <> None.
+Proof.
+  unfold row_sfl, is_superficial_loss. destruct (t_act (d_tx d)); try discriminate.
+  destruct (d_sfl d); [discriminate | discriminate].
+Qed.
+
+Theorem ledger_sfl_has_gain A init txs ds o :
+  run A init txs = (ds, o) -> Forall (fun d => row_sfl d = true -> d_gain d <> None) ds.
+Proof.
+  apply run_all. intros bef t aft st d inj H Hs.
+  apply delta_for_tx_sfl in H as [_ H]. apply H. apply row_sfl_has_record, Hs.
+Qed.
+
+(* for the tables of the whole pipeline: the legend is shown iff a row shows the suffix *)
+Theorem ledger_notes_iff_suffix A full cur init txs ds o g tb :
+  run A init txs = (ds, o) -> render_table A full cur ds g = Ok tb ->
+  tb_note_sfl tb = existsb (fun row => cell_has_suffix (cell_at row col_gain)) (tb_rows tb) /\
+  tb_note_over tb = existsb (fun row => cell_has_over (cell_at row col_gain)) (tb_rows tb).
+Proof.
+  intros Hr Ht. eapply notes_iff_suffix; eauto. eapply ledger_sfl_has_gain; eauto.
+Qed.
+
+(* ================================================================ E. totality: which panics rendering can raise *)
+Definition split_ok (d : delta) : bool :=
+  match t_act (d_tx d) with
+  | Split post pre _ => Qcltb 0 post && Qcltb 0 pre      (* PosDecimal fields of SplitRatio *)
+  | _ => true
+  end.
+
+Lemma valid_tx_split_ok d : valid_tx (d_tx d) = true -> split_ok d = true.
+Proof. unfold valid_tx, valid_action, split_ok. destruct (t_act (d_tx d)); auto. Qed.
+
+Lemma insert_year_in x y l : In x (insert_year y l) <-> x = y \/ In x l.
+Proof.
+  induction l as [|h r IH]; cbn [insert_year].
+  - cbn. intuition.
+  - destruct (Z.eqb_spec y h) as [->|Hne]; [cbn; intuition|].
+    destruct (y <? h)%Z; cbn [In]; [intuition|]. rewrite IH. intuition.
+Qed.
+
+Lemma years_sorted_in g y : In y (years_sorted g) <-> In y (map fst (g_years g)).
+Proof.
+  unfold years_sorted. induction (map fst (g_years g)) as [|h r IH]; cbn [fold_right]; [reflexivity|].
+  rewrite insert_year_in, IH. cbn [In]. intuition.
+Qed.
+
+Lemma zlookup_in y l : In y (map fst l) -> exists v, zlookup y l = Some v.
+Proof.
+  induction l as [|[k v] r IH]; cbn [map fst In zlookup]; [contradiction|].
+  intros [->|H].
+  - rewrite Z.eqb_refl. eauto.
+  - destruct (y =? k)%Z; eauto.
+Qed.
+
+Section Total.
+  Variable okp : panic -> Prop.      (* the panics the arithmetic may raise *)
+  Definition safeP {T} (r : res T) : Prop :=
+    match r with Ok _ => True | Rej _ => False | Panic p => okp p end.
+
+  (* an arithmetic whose operations raise only [okp] panics, division only
+     for a zero divisor being excepted, and whose split factor of positive
+     numbers raises only [okp] panics *)
+  Record arith_ok (A : arith) : Prop := {
+    ao_add : forall a b, safeP (a_add A a b);
+    ao_sub : forall a b, safeP (a_sub A a b);
+    ao_mul : forall a b, safeP (a_mul A a b);
+    ao_div : forall a b, b <> 0 -> safeP (a_div A a b);
+    ao_split : forall post pre, 0 < post -> 0 < pre -> safeP (split_factor A post pre)
+  }.
+
+  Lemma safe_bind {T U} (m : res T) (k : T -> res U) :
+    safeP m -> (forall x, m = Ok x -> safeP (k x)) -> safeP (bind m k).
+  Proof. destruct m; cbn; intros H1 H2; auto; contradiction. Qed.
+
+  Variable A : arith.
+  Hypothesis HA : arith_ok A.
+  Variable full : bool.
+  Variable cur : tx -> bytes * bytes.
+
+  Ltac sb := apply safe_bind; [|intros ? _].
+
+  Lemma curr_with_fx_safe v r c : safeP (curr_with_fx A full v r c).
+  Proof. unfold curr_with_fx. destruct (cur_is_default c); [exact I|]. sb; [apply (ao_mul _ HA) | exact I]. Qed.
+  Lemma plus_minus_safe v sp : safeP (plus_minus A full v sp).
+  Proof. unfold plus_minus. destruct (Qcltb v 0); [|exact I]. sb; [apply (ao_mul _ HA) | exact I]. Qed.
+  Lemma plus_minus_opt_safe o sp : safeP (plus_minus_opt A full o sp).
+  Proof. destruct o; cbn [plus_minus_opt]; [|exact I]. sb; [apply plus_minus_safe | exact I]. Qed.
+
+  Lemma sfl_note_safe d : safeP (sfl_note A full d).
+  Proof.
+    unfold sfl_note. destruct (t_act (d_tx d)); try exact I.
+    unfold is_superficial_loss. destruct (d_sfl d) as [i|]; [|exact I].
+    destruct (negb (Qceqb (sf_amount i) 0)); [|exact I]. sb; [apply plus_minus_safe | exact I].
+  Qed.
+
+  Lemma pos_nonzero (x : Qc) : Qcltb 0 x = true -> x <> 0.
+  Proof. intros H. qc_bool. apply Qclt_not_eq'. exact H. Qed.
+
+  Lemma acb_of_sale_safe d sh : safeP (acb_of_sale A full d sh).
+  Proof.
+    unfold acb_of_sale. destruct (Qcltb 0 (s_sh (d_pre d))) eqn:E; [|exact I].
+    destruct (s_acb (d_pre d)); [|exact I].
+    sb; [apply (ao_div _ HA), pos_nonzero, E|]. sb; [apply (ao_mul _ HA) | exact I].
+  Qed.
+  Lemma gain_cell_safe d note : safeP (gain_cell A full d note).
+  Proof. unfold gain_cell. destruct (d_gain d); [|exact I]. sb; [apply plus_minus_safe | exact I]. Qed.
+  Lemma commission_cell_safe t com crate : safeP (commission_cell A full cur t com crate).
+  Proof. unfold commission_cell. destruct (Qceqb com 0); [exact I | apply curr_with_fx_safe]. Qed.
+
+  Lemma row_parts_safe d note : split_ok d = true -> safeP (row_parts A full cur d note).
+  Proof.
+    unfold row_parts, split_ok. destruct (t_act (d_tx d)); intros Hs.
+    - sb; [apply (ao_mul _ HA)|]. sb; [apply curr_with_fx_safe|]. sb; [apply curr_with_fx_safe|].
+      sb; [apply commission_cell_safe | exact I].
+    - sb; [apply (ao_mul _ HA)|]. sb; [apply curr_with_fx_safe|]. sb; [apply curr_with_fx_safe|].
+      sb; [apply acb_of_sale_safe|]. sb; [apply gain_cell_safe|]. sb; [apply commission_cell_safe | exact I].
+    - sb; [apply (ao_mul _ HA)|]. sb; [apply curr_with_fx_safe|]. sb; [apply curr_with_fx_safe | exact I].
+    - sb; [apply (ao_mul _ HA) | exact I].
+    - apply andb_true_iff in Hs as [H1 H2]. qc_bool.
+      sb; [apply (ao_sub _ HA)|]. sb; [apply (ao_split _ HA); assumption | exact I].
+  Qed.
+
+  Lemma acb_per_share_safe d : safeP (acb_per_share A full d).
+  Proof.
+    unfold acb_per_share. destruct (Qcltb 0 (s_sh (d_post d))) eqn:E; [|exact I].
+    destruct (s_acb (d_post d)); [|exact I]. sb; [apply (ao_div _ HA), pos_nonzero, E | exact I].
+  Qed.
+  Lemma acb_delta_cell_safe d : safeP (acb_delta_cell A full d).
+  Proof.
+    unfold acb_delta_cell. destruct (s_acb (d_pre d)), (s_acb (d_post d)); try exact I.
+    sb; [apply (ao_sub _ HA) | apply plus_minus_opt_safe].
+  Qed.
+
+  Lemma render_step_safe st d : split_ok d = true -> safeP (render_step A full cur st d).
+  Proof.
+    intros Hs. unfold render_step. sb; [apply sfl_note_safe|].
+    unfold render_row. sb; [|exact I].
+    sb; [apply row_parts_safe, Hs|]. sb; [apply acb_per_share_safe|]. sb; [apply acb_delta_cell_safe | exact I].
+  Qed.
+
+  Lemma render_loop_safe ds : forall st, forallb split_ok ds = true -> safeP (render_loop A full cur st ds).
+  Proof.
+    induction ds as [|d ds IH]; intros st Hs; cbn [render_loop]; [exact I|].
+    cbn [forallb] in Hs. apply andb_true_iff in Hs as [H1 H2].
+    sb; [apply render_step_safe, H1 | apply IH, H2].
+  Qed.
+
+  Lemma year_values_safe g ys :
+    (forall y, In y ys -> In y (map fst (g_years g))) -> safeP (year_values A full g ys).
+  Proof.
+    induction ys as [|y ys IH]; intros Hin; cbn [year_values]; [exact I|].
+    destruct (zlookup_in y (g_years g) (Hin y (or_introl eq_refl))) as [v ->]. cbn [bind].
+    sb; [apply plus_minus_safe|]. sb; [apply IH; intros z Hz; apply Hin; right; exact Hz | exact I].
+  Qed.
+
+  (* rendering a table never returns an error and panics only as the
+     arithmetic allows: every division is guarded by a positive divisor, the
+     year lookup cannot miss *)
+  Theorem render_table_safe ds g :
+    forallb split_ok ds = true -> safeP (render_table A full cur ds g).
+  Proof.
+    intros Hs. unfold render_table. sb; [apply render_loop_safe, Hs|].
+    sb; [apply year_values_safe; intros y Hy; apply years_sorted_in, Hy|].
+    sb; [apply plus_minus_safe | exact I].
+  Qed.
+
+  Theorem render_aggregate_safe g : safeP (render_aggregate A full g).
+  Proof.
+    unfold render_aggregate.
+    sb; [apply year_values_safe; intros y Hy; apply years_sorted_in, Hy|].
+    sb; [apply plus_minus_safe | exact I].
+  Qed.
+End Total.
+
+Definition no_panic (p : panic) : Prop := False.
+(* rust_decimal: overflow; or the split factor of two positive decimals rounding to zero *)
+Definition benign (p : panic) : Prop := p = PanicOverflow \/ p = PanicConstraint Site.pos_div.
+
+Lemma exact_ok : arith_ok no_panic exact.
+Proof.
+  constructor; intros; cbn; auto.
+  - destruct (Qceqb_spec b 0); [contradiction | exact I].
+  - unfold split_factor, pos_div. cbn [a_div exact].
+    destruct (Qceqb_spec pre 0) as [->|Hne]; [exfalso; eapply Qclt_not_eq'; eauto|]. cbn [bind].
+    unfold pos_unwrap. destruct (Qcltb_spec 0 (post / pre)) as [|Hn]; [exact I|].
+    exfalso. apply Hn. apply Qcdiv_pos; assumption.
+Qed.
+
+Lemma fit_res_benign q : safeP benign (fit_res q).
+Proof. unfold fit_res. destruct (fit q); cbn; [exact I | left; reflexivity]. Qed.
+
+Lemma dec_ok : arith_ok benign dec.
+Proof.
+  constructor; intros; cbn [a_add a_sub a_mul a_div dec]; try apply fit_res_benign.
+  - destruct (Qceqb_spec b 0); [contradiction | apply fit_res_benign].
+  - unfold split_factor, pos_div. cbn [a_div dec].
+    destruct (Qceqb_spec pre 0) as [->|Hne]; [exfalso; eapply Qclt_not_eq'; eauto|].
+    apply safe_bind; [apply fit_res_benign|]. intros x _. unfold pos_unwrap.
+    destruct (Qcltb 0 x); cbn; [exact I | right; reflexivity].
+Qed.
+
+Theorem render_exact_total full cur ds g :
+  forallb split_ok ds = true -> exists tb, render_table exact full cur ds g = Ok tb.
+Proof.
+  intros Hs. pose proof (render_table_safe no_panic exact exact_ok full cur ds g Hs) as H.
+  destruct (render_table exact full cur ds g) as [tb| |]; cbn in H; [eauto | contradiction | contradiction].
+Qed.
+
+Theorem render_dec_panics full cur ds g :
+  forallb split_ok ds = true ->
+  match render_table dec full cur ds g with
+  | Ok _ => True
+  | Rej _ => False
+  | Panic p => p = PanicOverflow \/ p = PanicConstraint Site.pos_div
+  end.
+Proof. intros Hs. exact (render_table_safe benign dec dec_ok full cur ds g Hs). Qed.
+
+(* for ANY arithmetic that reports a division by zero only for a zero
+   divisor: rendering never divides by zero *)
+Theorem render_no_div_by_zero A full cur ds g :
+  arith_ok (fun p => p <> PanicDivZero) A -> forallb split_ok ds = true ->
+  render_table A full cur ds g <> Panic PanicDivZero /\
+  (forall e, render_table A full cur ds g <> Rej e) /\
+  render_aggregate A full g <> Panic PanicDivZero.
+Proof.
+  intros HA Hs.
+  pose proof (render_table_safe _ A HA full cur ds g Hs) as H1.
+  pose proof (render_aggregate_safe _ A HA full g) as H2.
+  repeat split.
+  - intros E. rewrite E in H1. cbn in H1. apply H1; reflexivity.
+  - intros e E. rewrite E in H1. exact H1.
+  - intros E. rewrite E in H2. cbn in H2. apply H2; reflexivity.
+Qed.
